@@ -191,7 +191,7 @@ def strategy(tier):
     def _s(draw):
         tie = draw(st.booleans())
         if draw(st.integers(0, 5)) == 0:
-            case = draw(gen.fork_case())
+            case = draw(gen.star_case() if draw(st.booleans()) else gen.fork_case())
             n = len(case["graph"])
             case["perm"] = {"nodes": gen.shuffled(draw, range(n)),
                             "nbr_rot": [draw(st.integers(0, 3)) for _ in range(n)],
@@ -199,7 +199,7 @@ def strategy(tier):
             case["unique"] = False
             return case
         case = draw(common.mixed_case(tier, ne_share=3,
-                                      graph_kw={"families": ["grid", "grid", "chain"], "label_kinds": ("str", "str", "int")} if tie else
+                                      graph_kw={"families": ["grid", "grid", "chain"], "label_kinds": ("str", "str", "int"), "self_listed": 4} if tie else
                                       {"label_kinds": ("str", "int")},
                                       trace_kw={"kinds": ["exact", "exact", "outlier", "repeat"]} if tie else
                                       {"kinds": ["walk", "sparse", "outlier", "outlier", "random"]}))
